@@ -128,6 +128,8 @@ def _metric_event(rnd, sigmoid, m):
     intern = Interner()
     a = np.array([rnd.uniform(-6, 6) * rnd.choice([1, 1e-3, 1e3]) for _ in range(m)])
     b = np.array([rnd.uniform(-6, 6) for _ in range(m)])
+    if rnd.random() < 0.4:
+        b = a + np.array([rnd.uniform(-1, 1) * 10.0 ** rnd.randint(-12, -6) for _ in range(m)])     # a slowly mixing chain: nearly equal predictions
     d = MSEDistance(sigmoid=sigmoid)
     dab, dba, daa = d.distance(a, b), d.distance(b, a), d.distance(a, a.copy())
     return {"kind": "metric", "n": 0, "k": 1, "dab": _tok(intern, dab), "dba": _tok(intern, dba), "daa": _tok(intern, daa),
